@@ -82,8 +82,8 @@ theorem runLayers_indep (w : World) (hs : EnvIndep w.shell) (cx : Ctx) (ls : Lis
     simp only [runLayers]
     have key := evalBlock_indep w hs
     apply ih
-    · simp only [stepLayer, htd, he]
-    · simp only [stepLayer, htd, he]
+    · simp only [stepLayer, tdNext, htd, he]
+    · simp only [stepLayer, layerDir, tdNext, htd, he]
       exact (key _ l.defs s2.env s1.cache s2.cache h1 h2).1
     · simp only [stepLayer]
       exact (key _ l.defs s1.env s1.cache s1.cache h1 h1).2.1
